@@ -96,7 +96,8 @@ def gen_daily(rng: random.Random):
     extreme = rng.random() < 0.2
     return dict(kind="daily", tz=tz, start=start.isoformat(), n=n, baseline=baseline, electric=electric, style=style,
                 miss_obs=sorted(miss_obs), miss_temp_days=sorted(miss_temp_days), partial={str(k): v for k, v in partial.items()},
-                negatives=negatives, extreme=extreme, entry=rng.choice(["frame", "from_series"]))
+                negatives=negatives, extreme=extreme,
+                entry=rng.choice(["frame", "from_series"] + (["daily_frame"] if not partial else [])))
 
 
 def build_daily(case):
@@ -124,6 +125,13 @@ def build_daily(case):
         temp.iloc[idx[present:]] = np.nan
     cls = DailyBaselineData if case["baseline"] else DailyReportingData
     CAPTURED.clear()
+    if case["entry"] == "daily_frame":
+        # a frame at daily frequency: one temperature value per day (the day's mean), no sub-daily readings at all
+        dtemp = pd.Series(50.0 + (np.arange(n) % 24), index=days, name="temperature")
+        for i in case["miss_temp_days"]:
+            dtemp.iloc[i] = np.nan
+        data = quiet(cls, pd.DataFrame({"temperature": dtemp, "observed": meter}), is_electricity_data=case["electric"])
+        return data, days, days, meter, dtemp
     if case["entry"] == "from_series":
         data = quiet(cls.from_series, meter, temp, is_electricity_data=case["electric"])
     else:
@@ -393,6 +401,14 @@ def run(ctx):
     lines, metas = [], []
     for case in ctx.get("corpus", []):
         one_case(case, res, sigs, lines, metas)
+    # directed, every run: a month's temperature coverage one day under the 90 % line (25 of 28 days), one of the days also
+    # without usage, on a span that contains the spring clock change only, as a daily-frequency frame and as an hourly one
+    for tzname in ("America/Chicago", "Europe/Berlin"):
+        for entry in ("daily_frame", "frame", "from_series"):
+            for miss_obs in ([72], [72, 80], []):
+                one_case(dict(kind="daily", tz=tzname, start=pd.Timestamp("2020-12-01", tz=tzname).isoformat(), n=335, baseline=True,
+                              electric=True, style="month_line_spring_span", miss_obs=miss_obs, miss_temp_days=[71, 72, 73], partial={},
+                              negatives=[], extreme=False, entry=entry), res, sigs, lines, metas)
     # directed, every run: the irradiance criterion on both data classes, just on and just under the 90 % line
     for baseline in (True, False):
         for ghi_k in (72, 73):
